@@ -126,8 +126,10 @@ ANSI_TEXT = ((), ('31',), ('1', '38;2;1;2;3'), (), ('4',), ('4', '58;5;9'), ('1'
 
 
 def h_spec(n: int, s1: int, r1: int, fi: int, sg: int, al: int, w: int, an: int, cls: int, via: int, wide=False, n_ansi=4):
-    s = build(n, 1, s1, r1, 0, 0)
+    s = build(n, 1 if n else 0, s1, r1, 0, 0)
     if s is None:
+        return None
+    if n == 0 and (s1 != 0 or r1 != 0):
         return None
     if pick(fi, 0, len(FILLS) - 1) is None:
         return None
@@ -194,12 +196,12 @@ def h_spec(n: int, s1: int, r1: int, fi: int, sg: int, al: int, w: int, an: int,
     extra = ANSI_TEXT[pick(an, 0, n_ansi - 1)]
     for i in range(m):
         inner = left <= i < left + n
-        if not inner and (not extend or n == 0):
+        if not inner and not extend:
             if cells[i][1] != {}:
                 return ('fill-styled-without-extend', spec, i, out)
             continue
         # the ansi part is applied like apply_formatting: it shows at least where the character had no setting of that group
-        base_tab = tab[i - left] if inner else (tab[0] if i < left else tab[n - 1])
+        base_tab = tab[i - left] if inner else ([] if n == 0 else (tab[0] if i < left else tab[n - 1]))
         touched = set(term.group_of(x) for x in base_tab)
         want_extra = term.red(list(extra))
         for g, v in want_extra.items():
@@ -220,6 +222,38 @@ def h_spec(n: int, s1: int, r1: int, fi: int, sg: int, al: int, w: int, an: int,
         cover('no-extend')
     if fill in (':', '+', '-', '0', '5'):
         cover('special-fill')
+    return True
+
+
+def h_method_ansistr(n: int, s1: int, r1: int, m: int, w1: int, w2: int, fi: int):
+    """AnsiStr padding methods: same text as the AnsiString method, receiver untouched, repeatable."""
+    s = build(n, 1, s1, r1, 0, 0)
+    if s is None:
+        return None
+    name = choose(m, ('ljust', 'rjust', 'center', 'zfill'))
+    if name is None:
+        return None
+    fill = choose(fi, (' ', '0', ':'))
+    if fill is None:
+        return None
+    wa = pick(w1, 0, n + 3)
+    if wa is None:
+        return None
+    wb = pick(w2, 0, n + 3)
+    if wb is None:
+        return None
+    a = AnsiStr(s)
+    snap = (a.base_str, S(a), str.__str__(a))
+    for w in (wa, wb):
+        if name == 'zfill':
+            r, e = a.zfill(w), s.zfill(w)
+        else:
+            r, e = getattr(a, name)(w, fill), getattr(s, name)(w, fill)
+        if not isinstance(r, AnsiStr) or r.base_str != e.base_str or S(r) != S(e) or str(r) != str(e):
+            return ('ansistr-pad-differs', name, w, r.base_str, e.base_str)
+        if (a.base_str, S(a), str.__str__(a)) != snap:
+            return ('ansistr-pad-changed-receiver', name, w, snap, (a.base_str, S(a)))
+    cover('ansistr-pad')
     return True
 
 
@@ -299,6 +333,9 @@ def obligations(tier):
             for s1 in range(3):
                 obs.append(Ob('method/m%d/n%d/k2/s%d' % (m, n, s1), h_method, dict(n=n, k=2, m=m, s1=s1), need=('extend',), budget=1500,
                               bounds='n=%d, 2 apply steps' % n, kinds=KINDS))
+    obs.append(Ob('method-ansistr/n2', h_method_ansistr, dict(n=2), need=('ansistr-pad',), budget=900, bounds='AnsiStr ljust/rjust/center/zfill, two calls in a row, 3 fills, widths 0..n+3', kinds=KINDS))
+    for fi in (0, 1, 6):
+        obs.append(Ob('spec/n0/f%d' % fi, h_spec, dict(n=0, fi=fi, cls=0, via=0, s1=0, r1=0), need=('padded',), budget=600, bounds='empty text, fill %r' % (FILLS[fi],), kinds=KINDS))
     for n in (1, 2):
         for fi in range(len(FILLS)):
             for cls in (0, 1):
